@@ -119,7 +119,7 @@ type udpSink struct {
 	cond    *sync.Cond
 	state   map[uintptr]map[uintptr]uint8 // engine -> slab -> state
 	staged  map[uintptr]bool
-	done    []slabEv                      // releases, in order
+	done    []slabEv // releases, in order
 	engines []uintptr
 }
 
@@ -679,6 +679,12 @@ func TestEngineReplay(t *testing.T) {
 		return rg
 	}
 
+	// A reply that never arrives within the driver's wait is the one outcome scheduling alone can produce (the
+	// thorough tier runs next to fifteen other checks): a history in which the engine entry answered fewer packets
+	// than the decoded entry is run once more, under a fresh name, and only the second run is judged.  What the
+	// first run found is buffered until then.
+	var pending []func()
+	buffering, missing := false, false
 	report := func(prop, clause, eng string, p engPkt, what string, b engBehaviour, si int, q built, extra map[string]any) {
 		if in.Only != "" && prop != in.Only {
 			res.Count("other_class_"+prop+"_"+clause, 1)
@@ -690,9 +696,22 @@ func TestEngineReplay(t *testing.T) {
 		for k, v := range extra {
 			rep[k] = v
 		}
-		res.Violate(fmt.Sprintf("%s/%s/%s/%s content=%s", prop, clause, eng, shapeOf(p), b.Content),
-			fmt.Sprintf("[%s engine, cfg %+v, content %s, step %d of %s, pkt %+v] %s", eng, b.Cfg, b.Content, si, b.Name, p, what), rep)
-		res.Count("verdict_"+prop+"_"+clause, 1)
+		emit := func() {
+			res.Violate(fmt.Sprintf("%s/%s/%s/%s content=%s", prop, clause, eng, shapeOf(p), b.Content),
+				fmt.Sprintf("[%s engine, cfg %+v, content %s, step %d of %s, pkt %+v] %s", eng, b.Cfg, b.Content, si, b.Name, p, what), rep)
+			res.Count("verdict_"+prop+"_"+clause, 1)
+		}
+		if buffering {
+			pending = append(pending, emit)
+		} else {
+			emit()
+		}
+	}
+	flush := func() {
+		for _, f := range pending {
+			f()
+		}
+		pending = nil
 	}
 
 	start := time.Now()
@@ -710,196 +729,212 @@ func TestEngineReplay(t *testing.T) {
 		}
 		stalled := false
 		for v := 0; v < in.Variants && !stalled; v++ {
-			serial++
-			cc := map[int][]byte{1: make([]byte, 8), 2: make([]byte, 8)}
-			rnd := rand.New(rand.NewSource(vh.Seed()*7919 + int64(serial)))
-			rnd.Read(cc[1])
-			rnd.Read(cc[2])
-			name := ""
-			switch b.Content {
-			case "hosts":
-				name = "hosts-entry.verif.test."
-			case "as112":
-				name = fmt.Sprintf("%d.%d.10.in-addr.arpa.", serial&0xFF, serial>>8&0xFF)
-			default:
-				name = fmt.Sprintf("%s-%d.verif.test.", b.Content, 1000+serial)
-			}
-			// what the previous packet of this behaviour left behind, per rig: for the order counters
-			type hist struct {
-				cookieOn map[string]uintptr // transport -> slab a wire-born cookie query was last served on (1 for the TCP slab)
-				tcpReply bool               // the TCP slab's TX region has held a full reply
-				filled   bool               // a DO=1 query has put the (authority-signed) denial into the cache
-			}
-			hs := map[*engRig]*hist{}
-			for _, e := range rg.engs {
-				hs[e] = &hist{cookieOn: map[string]uintptr{}}
-				// a history starts without an open connection
-				if e.tconn != nil {
-					e.tconn.Close()
-					e.tconn, e.towner = nil, 0
+			for attempt := 0; attempt < 2 && !stalled; attempt++ {
+				buffering, missing, pending = attempt == 0, false, nil
+				serial++
+				cc := map[int][]byte{1: make([]byte, 8), 2: make([]byte, 8)}
+				rnd := rand.New(rand.NewSource(vh.Seed()*7919 + int64(serial)))
+				rnd.Read(cc[1])
+				rnd.Read(cc[2])
+				name := ""
+				switch b.Content {
+				case "hosts":
+					name = "hosts-entry.verif.test."
+				case "as112":
+					name = fmt.Sprintf("%d.%d.10.in-addr.arpa.", serial&0xFF, serial>>8&0xFF)
+				default:
+					name = fmt.Sprintf("%s-%d.verif.test.", b.Content, 1000+serial)
 				}
-			}
-			for si, st := range b.Steps {
-				p := st.Pkt
-				// the byte-level variant (letter case of the name, advertised size, option order) rotates with the history
-				q := buildPacket(p.absPkt, name, loIP, rand.New(rand.NewSource(int64(serial)*131+int64(si))), (v+bi)%3, cc[p.Client])
-				res.Case(fmt.Sprintf("%v|%+v|%s|%d", b.Cfg, p, b.Content, si))
-				acc := server.VerifAcceptHeader(q.raw)
-				var om obs
-				if acc == "ok" {
-					om = rg.m.serve("msg", p.absPkt, q.raw, loIP)
-					rg.m.tail.Reset()
+				// what the previous packet of this behaviour left behind, per rig: for the order counters
+				type hist struct {
+					cookieOn map[string]uintptr // transport -> slab a wire-born cookie query was last served on (1 for the TCP slab)
+					tcpReply bool               // the TCP slab's TX region has held a full reply
+					filled   bool               // a DO=1 query has put the (authority-signed) denial into the cache
 				}
+				hs := map[*engRig]*hist{}
 				for _, e := range rg.engs {
-					var o eobs
-					if p.Proto == "tcp" {
-						o = e.sendTCP(p, q, st.Exp.Kind != "none")
-					} else {
-						o = e.sendUDP(p, q)
+					hs[e] = &hist{cookieOn: map[string]uintptr{}}
+					// a history starts without an open connection
+					if e.tconn != nil {
+						e.tconn.Close()
+						e.tconn, e.towner = nil, 0
 					}
-					e.tail.Reset()
-					if o.stalled != "" {
-						res.Count("eng_stalled_"+e.name, 1)
-						res.DriftNote("%s engine stalled at step %d of %s: %s", e.name, si, b.Name, o.stalled)
-						stalled = true
-						break
+				}
+				for si, st := range b.Steps {
+					p := st.Pkt
+					// the byte-level variant (letter case of the name, advertised size, option order) rotates with the history
+					q := buildPacket(p.absPkt, name, loIP, rand.New(rand.NewSource(int64(serial)*131+int64(si))), (v+bi)%3, cc[p.Client])
+					res.Case(fmt.Sprintf("%v|%+v|%s|%d", b.Cfg, p, b.Content, si))
+					acc := server.VerifAcceptHeader(q.raw)
+					var om obs
+					if acc == "ok" {
+						om = rg.m.serve("msg", p.absPkt, q.raw, loIP)
+						rg.m.tail.Reset()
 					}
-					res.Count("eng_packets_"+e.name+"_"+p.Proto, 1)
-					for _, sd := range o.strays {
-						report("C06", "unsolicited-datagram", e.name, p, fmt.Sprintf("before this packet was sent, its client's socket held a datagram of %d bytes no packet of the history accounts for "+
-							"(a second reply, or a reply to a packet that must not be answered)", len(sd)), b, si, q, map[string]any{"datagram_hex": hex.EncodeToString(sd)})
-					}
-					h := hs[e]
-					slabKey := o.slab
-					if p.Proto == "tcp" {
-						slabKey = 1
-						if o.same {
-							res.Count("eng_tcp_same_connection", 1)
+					for _, e := range rg.engs {
+						var o eobs
+						if p.Proto == "tcp" {
+							o = e.sendTCP(p, q, st.Exp.Kind != "none")
+						} else {
+							o = e.sendUDP(p, q)
 						}
-						if o.same != st.Exp.Same {
-							res.DriftNote("%s engine: model same-connection=%v, driver %v at step %d of %s", e.name, st.Exp.Same, o.same, si, b.Name)
+						e.tail.Reset()
+						if o.stalled != "" {
+							res.Count("eng_stalled_"+e.name, 1)
+							res.DriftNote("%s engine stalled at step %d of %s: %s", e.name, si, b.Name, o.stalled)
+							stalled = true
+							break
 						}
-					} else {
-						if e.lastSlab != 0 && e.lastSlab == o.slab {
-							res.Count("eng_udp_slab_reused_"+e.name, 1)
-						} else if e.lastSlab != 0 {
-							res.Count("eng_udp_slab_changed_"+e.name, 1)
+						res.Count("eng_packets_"+e.name+"_"+p.Proto, 1)
+						for _, sd := range o.strays {
+							report("C06", "unsolicited-datagram", e.name, p, fmt.Sprintf("before this packet was sent, its client's socket held a datagram of %d bytes no packet of the history accounts for "+
+								"(a second reply, or a reply to a packet that must not be answered)", len(sd)), b, si, q, map[string]any{"datagram_hex": hex.EncodeToString(sd)})
 						}
-						e.lastSlab = o.slab
-					}
-					// ---- the orders the tier exists for, as they really happened
-					wireBorn := acc == "ok" && p.Opcode == 0 && p.AN == 0 && (p.Opt == "none" || p.Opt == "ok") && p.Cookie != "badlen" && p.ECS != "badfam" && !p.Unk
-					if wireBorn && p.Opt == "ok" && p.Cookie == "none" && h.cookieOn[p.Proto] != 0 && h.cookieOn[p.Proto] == slabKey && len(o.replies) > 0 {
-						res.Count("order_cookie_then_bare_opt_"+p.Proto, 1)
-					}
-					if wireBorn && p.Opt == "ok" && (p.Cookie == "c8" || p.Cookie == "valid" || p.Cookie == "stale") {
-						h.cookieOn[p.Proto] = slabKey
-					}
-					if p.Proto == "tcp" {
-						f := factsOf(o.replies)
-						if h.tcpReply && f.kind == "bare" {
+						h := hs[e]
+						slabKey := o.slab
+						if p.Proto == "tcp" {
+							slabKey = 1
 							if o.same {
-								res.Count("order_reply_then_reject_same_conn", 1)
-							} else {
-								res.Count("order_reply_then_reject_new_conn", 1)
+								res.Count("eng_tcp_same_connection", 1)
+							}
+							if o.same != st.Exp.Same {
+								res.DriftNote("%s engine: model same-connection=%v, driver %v at step %d of %s", e.name, st.Exp.Same, o.same, si, b.Name)
+							}
+						} else {
+							if e.lastSlab != 0 && e.lastSlab == o.slab {
+								res.Count("eng_udp_slab_reused_"+e.name, 1)
+							} else if e.lastSlab != 0 {
+								res.Count("eng_udp_slab_changed_"+e.name, 1)
+							}
+							e.lastSlab = o.slab
+						}
+						// ---- the orders the tier exists for, as they really happened
+						wireBorn := acc == "ok" && p.Opcode == 0 && p.AN == 0 && (p.Opt == "none" || p.Opt == "ok") && p.Cookie != "badlen" && p.ECS != "badfam" && !p.Unk
+						if wireBorn && p.Opt == "ok" && p.Cookie == "none" && h.cookieOn[p.Proto] != 0 && h.cookieOn[p.Proto] == slabKey && len(o.replies) > 0 {
+							res.Count("order_cookie_then_bare_opt_"+p.Proto, 1)
+						}
+						if wireBorn && p.Opt == "ok" && (p.Cookie == "c8" || p.Cookie == "valid" || p.Cookie == "stale") {
+							h.cookieOn[p.Proto] = slabKey
+						}
+						if p.Proto == "tcp" {
+							f := factsOf(o.replies)
+							if h.tcpReply && f.kind == "bare" {
+								if o.same {
+									res.Count("order_reply_then_reject_same_conn", 1)
+								} else {
+									res.Count("order_reply_then_reject_new_conn", 1)
+								}
+							}
+							if f.kind == "reply" {
+								h.tcpReply = true
 							}
 						}
-						if f.kind == "reply" {
-							h.tcpReply = true
+						if (b.Content == "nxsig" || b.Content == "nodatasig") && wireBorn && p.Qtype == "A" && !p.CD {
+							switch {
+							case p.DO && p.Opt == "ok" && o.tail > 0:
+								h.filled = true
+							case h.filled && !p.DO && o.tail == 0 && len(o.replies) > 0:
+								res.Count("order_signed_denial_then_plain_client_"+p.Proto, 1)
+							}
 						}
-					}
-					if (b.Content == "nxsig" || b.Content == "nodatasig") && wireBorn && p.Qtype == "A" && !p.CD {
-						switch {
-						case p.DO && p.Opt == "ok" && o.tail > 0:
-							h.filled = true
-						case h.filled && !p.DO && o.tail == 0 && len(o.replies) > 0:
-							res.Count("order_signed_denial_then_plain_client_"+p.Proto, 1)
+						// ---- C06
+						if len(o.replies) > 1 {
+							report("C06", "two-replies", e.name, p, fmt.Sprintf("%d replies to one packet", len(o.replies)), b, si, q, nil)
 						}
-					}
-					// ---- C06
-					if len(o.replies) > 1 {
-						report("C06", "two-replies", e.name, p, fmt.Sprintf("%d replies to one packet", len(o.replies)), b, si, q, nil)
-					}
-					for _, rep := range o.replies {
-						res.Count("eng_replies_judged", 1)
-						if what := questionBytes(p, q, rep); what != "" {
-							report("C06", "question-bytes", e.name, p, what, b, si, q, map[string]any{"reply_hex": hex.EncodeToString(rep)})
+						for _, rep := range o.replies {
+							res.Count("eng_replies_judged", 1)
+							if what := questionBytes(p, q, rep); what != "" {
+								report("C06", "question-bytes", e.name, p, what, b, si, q, map[string]any{"reply_hex": hex.EncodeToString(rep)})
+							}
+							if clause, what := contract(p.absPkt, q, rep); clause != "" {
+								report("C06", clause, e.name, p, what, b, si, q, map[string]any{"reply_hex": hex.EncodeToString(rep)})
+							}
 						}
-						if clause, what := contract(p.absPkt, q, rep); clause != "" {
-							report("C06", clause, e.name, p, what, b, si, q, map[string]any{"reply_hex": hex.EncodeToString(rep)})
+						if clause, what := listenerClauses(p, q, o.replies); clause != "" {
+							extra := map[string]any{}
+							if len(o.replies) > 0 {
+								extra["reply_hex"] = hex.EncodeToString(o.replies[0])
+							}
+							report("C06", clause, e.name, p, what, b, si, q, extra)
 						}
-					}
-					if clause, what := listenerClauses(p, q, o.replies); clause != "" {
-						extra := map[string]any{}
-						if len(o.replies) > 0 {
-							extra["reply_hex"] = hex.EncodeToString(o.replies[0])
-						}
-						report("C06", clause, e.name, p, what, b, si, q, extra)
-					}
-					// ---- C05: the engine entry against the decoded entry
-					if acc == "ok" {
-						eo := o.obs
-						if om.formerr && len(eo.replies) == 1 && len(eo.replies[0]) == 12 && eo.replies[0][3]&0xF == dns.RcodeFormatError {
-							eo.formerr, eo.replies = true, nil
-						}
-						switch {
-						case eo.formerr != om.formerr || len(eo.replies) != len(om.replies):
-							report("C05", "decision", e.name, p, fmt.Sprintf("engine entry: formerr=%v replies=%d; decoded entry: formerr=%v replies=%d",
-								eo.formerr, len(eo.replies), om.formerr, len(om.replies)), b, si, q, nil)
-						case eo.tail != om.tail:
-							report("C05", "side-effect", e.name, p, fmt.Sprintf("engine entry reached the upstream %d times, decoded entry %d times", eo.tail, om.tail), b, si, q, nil)
-						default:
-							for k := range eo.replies {
-								ca, _, ea := canonMsg(eo.replies[k])
-								cb, _, eb := canonMsg(om.replies[k])
-								if ea != nil || eb != nil {
-									if (ea == nil) != (eb == nil) {
-										report("C05", "decode", e.name, p, fmt.Sprintf("reply of the engine entry decodes: %v, of the decoded entry: %v", ea, eb), b, si, q,
+						// ---- C05: the engine entry against the decoded entry
+						if acc == "ok" {
+							eo := o.obs
+							if om.formerr && len(eo.replies) == 1 && len(eo.replies[0]) == 12 && eo.replies[0][3]&0xF == dns.RcodeFormatError {
+								eo.formerr, eo.replies = true, nil
+							}
+							switch {
+							case eo.formerr != om.formerr || len(eo.replies) != len(om.replies):
+								if !eo.formerr && !om.formerr && len(eo.replies) < len(om.replies) {
+									missing = true
+								}
+								report("C05", "decision", e.name, p, fmt.Sprintf("engine entry: formerr=%v replies=%d; decoded entry: formerr=%v replies=%d",
+									eo.formerr, len(eo.replies), om.formerr, len(om.replies)), b, si, q, nil)
+							case eo.tail != om.tail:
+								report("C05", "side-effect", e.name, p, fmt.Sprintf("engine entry reached the upstream %d times, decoded entry %d times", eo.tail, om.tail), b, si, q, nil)
+							default:
+								for k := range eo.replies {
+									ca, _, ea := canonMsg(eo.replies[k])
+									cb, _, eb := canonMsg(om.replies[k])
+									if ea != nil || eb != nil {
+										if (ea == nil) != (eb == nil) {
+											report("C05", "decode", e.name, p, fmt.Sprintf("reply of the engine entry decodes: %v, of the decoded entry: %v", ea, eb), b, si, q,
+												map[string]any{"engine_hex": hex.EncodeToString(eo.replies[k]), "msg_hex": hex.EncodeToString(om.replies[k])})
+										}
+										continue
+									}
+									if d := diffCanon(ca, cb); d != "" {
+										report("C05", "reply", e.name, p, "engine vs decoded entry: "+d, b, si, q,
 											map[string]any{"engine_hex": hex.EncodeToString(eo.replies[k]), "msg_hex": hex.EncodeToString(om.replies[k])})
 									}
-									continue
-								}
-								if d := diffCanon(ca, cb); d != "" {
-									report("C05", "reply", e.name, p, "engine vs decoded entry: "+d, b, si, q,
-										map[string]any{"engine_hex": hex.EncodeToString(eo.replies[k]), "msg_hex": hex.EncodeToString(om.replies[k])})
 								}
 							}
 						}
+						// ---- drift against the model
+						f := factsOf(o.replies)
+						x := st.Exp
+						if f.kind != x.Kind || (x.Kind != "none" && f.rcode != x.Rcode) ||
+							(x.Kind == "reply" && (f.opt != x.Opt || f.tc != x.Tc || f.ad != x.Ad || f.cookie != x.Cookie || f.dnssec != x.Dnssec)) ||
+							(acc == "ok" && x.Tail != (o.tail > 0)) {
+							res.DriftNote("%s engine: model %+v, code %+v tail=%d for cfg %+v pkt %+v content %s step %d of %s", e.name, x, f, o.tail, b.Cfg, p, b.Content, si, b.Name)
+							res.Count("eng_drift_steps", 1)
+						}
 					}
-					// ---- drift against the model
-					f := factsOf(o.replies)
-					x := st.Exp
-					if f.kind != x.Kind || (x.Kind != "none" && f.rcode != x.Rcode) ||
-						(x.Kind == "reply" && (f.opt != x.Opt || f.tc != x.Tc || f.ad != x.Ad || f.cookie != x.Cookie || f.dnssec != x.Dnssec)) ||
-						(acc == "ok" && x.Tail != (o.tail > 0)) {
-						res.DriftNote("%s engine: model %+v, code %+v tail=%d for cfg %+v pkt %+v content %s step %d of %s", e.name, x, f, o.tail, b.Cfg, p, b.Content, si, b.Name)
-						res.Count("eng_drift_steps", 1)
+					if stalled {
+						break
 					}
 				}
 				if stalled {
+					if !missing {
+						flush()
+					}
 					break
 				}
-			}
-			if stalled {
+				// follow-up: what a later client sees (decoded entry on every twin)
+				fq := new(dns.Msg)
+				fq.SetQuestion(name, dns.TypeA)
+				fq.Id = 4711
+				raw, _ := fq.Pack()
+				fm := rg.m.serve("msg", absPkt{Proto: "tcp", QD: 1}, raw, net.IPv4(198, 18, 0, 9))
+				rg.m.tail.Reset()
+				for _, e := range rg.engs {
+					tw := &twin{name: e.name, srv: e.srv, tail: e.tail}
+					fe := tw.serve("msg", absPkt{Proto: "tcp", QD: 1}, raw, net.IPv4(198, 18, 0, 9))
+					e.tail.Reset()
+					if fe.tail != fm.tail || len(fe.replies) != len(fm.replies) {
+						report("C05", "later-visible", e.name, b.Steps[len(b.Steps)-1].Pkt, fmt.Sprintf("after the behaviour a follow-up query reaches upstream %d times behind the engine entry and %d times behind the decoded entry",
+							fe.tail, fm.tail), b, len(b.Steps)-1, built{}, nil)
+					}
+				}
+				if attempt == 0 && missing {
+					res.Count("eng_missing_reply_rerun", 1)
+					res.DriftNote("history %s (content %s): the engine entry answered fewer packets than the decoded entry within the driver's wait; run again before judging", b.Name, b.Content)
+					continue
+				}
+				flush()
+				res.Count("eng_histories", 1)
 				break
 			}
-			// follow-up: what a later client sees (decoded entry on every twin)
-			fq := new(dns.Msg)
-			fq.SetQuestion(name, dns.TypeA)
-			fq.Id = 4711
-			raw, _ := fq.Pack()
-			fm := rg.m.serve("msg", absPkt{Proto: "tcp", QD: 1}, raw, net.IPv4(198, 18, 0, 9))
-			rg.m.tail.Reset()
-			for _, e := range rg.engs {
-				tw := &twin{name: e.name, srv: e.srv, tail: e.tail}
-				fe := tw.serve("msg", absPkt{Proto: "tcp", QD: 1}, raw, net.IPv4(198, 18, 0, 9))
-				e.tail.Reset()
-				if fe.tail != fm.tail || len(fe.replies) != len(fm.replies) {
-					report("C05", "later-visible", e.name, b.Steps[len(b.Steps)-1].Pkt, fmt.Sprintf("after the behaviour a follow-up query reaches upstream %d times behind the engine entry and %d times behind the decoded entry",
-						fe.tail, fm.tail), b, len(b.Steps)-1, built{}, nil)
-				}
-			}
-			res.Count("eng_histories", 1)
 		}
 		if bi < 2 {
 			res.Sample(b)
